@@ -2,6 +2,7 @@
 Model/Solver.v instantiated with IEEE doubles (FloatOps), evaluated by vm_compute.
 Used by the checks of C01–C07, C10, C11 with different case generators."""
 import math
+import os
 import re
 import sys
 
@@ -176,13 +177,14 @@ def from_full(d):
 # implementation
 
 
-def call(S, case, **over):
+def call(S, case, cache=None, **over):
     c = dict(case)
     c.update(over)
+    kw = {} if cache is None else {"cache": cache}
     return S.steady_state_transport_solver(
         c["q0"], c["z"], c["profiles"], c["domain"], c["levels"], modes=c["modes"], meas_pt=c["meas_pt"],
         srf_bg_conc=c["bg"], footprint=c["footprint"], analytic=c["analytic"], halo=c["halo"],
-        precision=c["precision"])
+        precision=c["precision"], **kw)
 
 
 def levels_list(case):
@@ -192,12 +194,15 @@ def levels_list(case):
     return [int(l) for l in lv]
 
 
-def run_impl(S, case):
+def run_impl(S, case, cache=None, scribble=False):
+    """scribble=True plays a caller that edits the arrays it was given in place (normalising, clipping) after the
+    result has been recorded: a later call must not see those edits"""
     ny, nx = case["q0"].shape
     nl = len(levels_list(case))
     try:
         with np.errstate(all="ignore"):
-            (X, Y, Z), conc, flx = call(S, case)
+            (X, Y, Z), conc, flx = call(S, case, cache=cache)
+        raw = (X, Y, Z, conc, flx)
     except ValueError as e:
         if "even" in str(e):
             return {"err": 1, "msg": str(e)}
@@ -217,8 +222,16 @@ def run_impl(S, case):
     mesh_ok = bool(np.array_equal(X3, np.broadcast_to(x[None, None, :], X3.shape)) and
                    np.array_equal(Y3, np.broadcast_to(y[None, :, None], Y3.shape)) and
                    np.array_equal(Z3, np.broadcast_to(z[:, None, None], Z3.shape)))
-    return {"err": 0, "x": x, "y": y, "z": z, "conc": conc.reshape(nl, ny, nx), "flx": flx.reshape(nl, ny, nx),
-            "shape": list(conc.shape), "mesh_ok": mesh_ok and list(np.shape(X)) == list(conc.shape) == list(flx.shape)}
+    rec = {"err": 0, "x": x.copy(), "y": y.copy(), "z": z.copy(), "conc": conc.reshape(nl, ny, nx).copy(), "flx": flx.reshape(nl, ny, nx).copy(),
+           "shape": list(conc.shape), "mesh_ok": mesh_ok and list(np.shape(X)) == list(conc.shape) == list(flx.shape)}
+    if scribble:
+        for A in raw:
+            try:
+                if isinstance(A, np.ndarray) and A.flags.writeable and A.ndim > 0:
+                    A[...] = 12345.678
+            except Exception:
+                pass
+    return rec
 
 
 # ---------------------------------------------------------------------------------------------
@@ -284,14 +297,218 @@ def tolerance(case):
     return 2e-6 if case["precision"] == "single" else 1e-8
 
 
+SIBLING_KINDS = ["domain-x", "domain-y", "source-scale", "bg", "meas", "precision", "levels-reversed", "halo", "source-values"]
+
+
+def sibling(rng, case, kind):
+    """a request that differs from `case` in exactly one argument (same array shapes): run right after it in the same
+    process, it exposes results that depend on what was solved before (memoised intermediates keyed too coarsely)"""
+    c = dict(case)
+    ny, nx = case["q0"].shape
+    if kind == "domain-x":
+        c["domain"] = (case["domain"][0] * 1.5, case["domain"][1])
+        if case["halo"]:
+            c["halo"] = case["halo"] * 1.5
+        c["meas_pt"] = (case["meas_pt"][0] * 1.5, case["meas_pt"][1])
+    elif kind == "domain-y":
+        c["domain"] = (case["domain"][0], case["domain"][1] * 1.25)
+    elif kind == "source-scale":
+        c["q0"] = case["q0"] * 2.0 ** rng.choice([-58, -36, -31, 9])
+        c["bg"] = 0.0  # a tiny response must not hide behind the background in the per-field tolerance
+    elif kind == "source-values":
+        c["q0"] = source(rng, ny, nx)
+    elif kind == "bg":
+        c["bg"] = case["bg"] + rng.choice([1.0, -2.5, 3.875])
+    elif kind == "meas":
+        dx, dy = case["domain"][0] / nx, case["domain"][1] / ny
+        c["meas_pt"] = (float(dx * ((round(case["meas_pt"][0] / dx) + 1) % nx)), float(dy * ((round(case["meas_pt"][1] / dy) + 2) % ny)))
+    elif kind == "precision":
+        c["precision"] = "single" if case["precision"] == "double" else "double"
+    elif kind == "levels-reversed":
+        lv = levels_list(case)
+        c["levels"] = lv[::-1] if len(lv) > 1 else [lv[0], 0]
+    elif kind == "halo":
+        c["halo"] = 0.0 if case["halo"] is None or case["halo"] > 0 else float(case["domain"][0] / nx)
+    return tame(c, bound=1e9)  # keep the column (same z): only recompute the growth figure
+
+
+def _cache_cls():
+    if core.SRC not in sys.path:
+        sys.path.insert(0, core.SRC)
+    from bldfm.cache import GreensFunctionCache
+    return GreensFunctionCache
+
+
+def _same(r1, r2):
+    if r1["err"] != r2["err"]:
+        return False
+    if r1["err"] != 0:
+        return True
+    return (all(np.array_equal(np.asarray(r1[k]), np.asarray(r2[k]), equal_nan=True) for k in ("x", "y", "z", "conc", "flx"))
+            and r1["shape"] == r2["shape"] and r1["mesh_ok"] == r2["mesh_ok"])
+
+
+FRESH_SNIPPET = r"""
+import sys, json, numpy as np
+sys.path.insert(0, %(h)r); sys.path.insert(0, %(s)r)
+import logging; logging.disable(logging.CRITICAL)
+import solvercorr as sc
+S = sc.impl()
+d = json.load(open(%(f)r))
+r = sc.run_impl(S, sc.from_full(d))
+json.dump({"err": r["err"], "conc": np.asarray(r.get("conc", [])).tolist(), "flx": np.asarray(r.get("flx", [])).tolist()}, open(%(o)r, "w"))
+"""
+
+
+def fresh_process_result(case, workdir):
+    """the same request alone in a fresh interpreter (what 'the result depends only on the arguments' refers to)"""
+    import json, os, subprocess, tempfile
+    d = tempfile.mkdtemp(prefix="fresh_", dir=workdir)
+    fi, fo = os.path.join(d, "in.json"), os.path.join(d, "out.json")
+    json.dump(full(case), open(fi, "w"))
+    code = FRESH_SNIPPET % {"h": os.path.join(core.VERIF, "harness"), "s": core.SRC, "f": fi, "o": fo}
+    subprocess.run([core.PY, "-c", code], cwd=d, env=core.pyenv(), capture_output=True, timeout=600)
+    r = json.load(open(fo))
+    return {"err": r["err"], "conc": np.array(r["conc"], dtype=float), "flx": np.array(r["flx"], dtype=float)}
+
+
+def _dev(a, b):
+    a, b = np.asarray(a, float), np.asarray(b, float)
+    if a.shape != b.shape:
+        return float("inf")
+    m = max(float(np.max(np.abs(b))) if b.size else 0.0, 1e-300)
+    return float(np.max(np.abs(a - b))) / m if a.size else 0.0
+
+
+def stress_probe(body, workdir):
+    """replays one stress hint on the implementation; returns (signature, detail) or None"""
+    S = impl()
+    st = body["stress"]
+    base = from_full(body["case"])
+    if st["kind"] == "cached-sequence":
+        import tempfile
+        sibc = from_full(st["sibling"])
+        cache = _cache_cls()(cache_dir=tempfile.mkdtemp(prefix="sccache_", dir=workdir))
+        for lab, c_, scr in [("store", base, True), ("hit-after-caller-scribbled", base, True), ("sibling-one-argument", sibc, False), ("hit-again", base, False)]:
+            ref = run_impl(S, c_)
+            got = run_impl(S, c_, cache=cache, scribble=scr)
+            if not _same(ref, got):
+                what = "grid" if ref["err"] == 0 and got["err"] == 0 and np.array_equal(ref["conc"], got["conc"]) and np.array_equal(ref["flx"], got["flx"]) else "fields"
+                return ("cache:%s-differ-with-cache-attached:%s" % (what, lab),
+                        "footprint solve through one GreensFunctionCache, sequence store / hit after the caller edited the returned arrays in place / one-argument sibling / hit: at step '%s' the returned %s differ from the same solve without a cache (max rel dev conc %.3g, flx %.3g)"
+                        % (lab, what, _dev(got.get("conc", []), ref.get("conc", [])) if ref["err"] == 0 and got["err"] == 0 else float("nan"),
+                           _dev(got.get("flx", []), ref.get("flx", [])) if ref["err"] == 0 and got["err"] == 0 else float("nan")))
+        return None
+    if st["kind"] == "sibling":
+        parent = from_full(st["parent"])
+        run_impl(S, parent)
+        got = run_impl(S, base)
+        alone = fresh_process_result(base, workdir)
+        if got["err"] != alone["err"]:
+            return ("state:outcome-depends-on-previous-call:" + st["varied"], "after a solve differing only in %s the call %s, alone in a fresh process it %s" % (st["varied"], ERR.get(got["err"], "returns"), ERR.get(alone["err"], "returns")))
+        if got["err"] == 0:
+            dc, df = _dev(got["conc"], alone["conc"]), _dev(got["flx"], alone["flx"])
+            tol = 1e-4 if base["precision"] == "single" else 1e-9
+            if dc > tol or df > tol:
+                return ("state:result-depends-on-previous-call:" + st["varied"],
+                        "the same request returns different fields after a solve that differs only in %s than alone in a fresh process (rel dev conc %.3g, flx %.3g)" % (st["varied"], dc, df))
+        return None
+    return None
+
+
+def stress_oracle(ctx, hints):
+    out, seen = [], set()
+    for h in hints:
+        if not h or "stress" not in h:
+            continue
+        try:
+            r = stress_probe(h, ctx.build)
+        except Exception:
+            continue
+        if r and r[0] not in seen:
+            seen.add(r[0])
+            out.append({"signature": r[0], "what": "%s: %s; request %r" % (ctx.prop, r[1], {k: v for k, v in h["case"].items() if k not in ("q0", "z", "profiles")}),
+                        "replay": {"case": h["case"], "stress": h["stress"]}})
+    return out
+
+
+def stress_replay(body):
+    import tempfile
+    r = stress_probe(body, tempfile.mkdtemp(prefix="replay_", dir=os.path.join(core.VERIF, "build")))
+    if r:
+        print("FAILS", r[0], r[1])
+        return 1
+    print("holds on this input")
+    return 0
+
+
 def correspond(ctx, cases, label, shard=6, jobs=14, timeout=900):
     """Runs implementation and model on every case.  Returns list of per-case dicts and
-    registers ctx.fail for every disagreement."""
+    registers ctx.fail for every disagreement.
+
+    Besides the given cases the run contains *stress* material that every solver-family property relies on
+    (the result of a call is a function of its arguments): (i) siblings — a request differing from the preceding one in
+    exactly one argument, executed right after it in the same process and compared with the model like any case;
+    (ii) cached repeats — footprint requests sent through one GreensFunctionCache three times (store, hit after the
+    caller scribbled over the arrays it was given, one-argument sibling) and compared bit for bit with the uncached call."""
     S = impl()
+    cases = list(cases)
+    n_given = len(cases)
+    # every kind of one-argument variation occurs at least once per run (twice in the thorough tier)
+    sib_of = {}
+    want = SIBLING_KINDS * (2 if ctx.thorough else 1)
+    free = list(range(n_given))
+    ctx.rng.shuffle(free)
+    for kd in want:
+        ok = [k for k in free if k not in sib_of and not (kd in ("meas", "source-values") and not cases[k]["footprint"])
+              and not (kd in ("domain-x", "domain-y") and cases[k]["analytic"])]
+        if not ok:
+            continue
+        k = ok[0]
+        try:
+            sc_ = sibling(ctx.rng, cases[k], kd)
+        except Exception:
+            continue
+        sc_["_sibling"] = kd
+        cases.append(sc_)
+        sib_of[k] = len(cases) - 1
+    exec_order = []
+    for k in range(n_given):
+        exec_order.append(k)
+        if k in sib_of:
+            exec_order.append(sib_of[k])
     terms = []
+    impl_by = {}
+    for k in exec_order:
+        impl_by[k] = run_impl(S, cases[k])
+    # cached repeats (implementation only; reference = uncached call, bit for bit)
+    stress_fail = 0
+    stress_n = 0
+    fp_idx = [k for k in range(n_given) if cases[k]["footprint"] and impl_by[k]["err"] == 0]
+    ctx.rng.shuffle(fp_idx)
+    Cache = _cache_cls()
+    import tempfile
+    for k in fp_idx[: (6 if ctx.thorough else 3)]:
+        base = cases[k]
+        cdir = tempfile.mkdtemp(prefix="sccache_", dir=ctx.build)
+        cache = Cache(cache_dir=cdir)
+        sibc = sibling(ctx.rng, base, ctx.rng.choice(["bg", "levels-reversed", "halo", "meas", "source-values"]))
+        seq = [("store", base, True), ("hit-after-caller-scribbled", base, True), ("sibling-" + "one-argument", sibc, False), ("hit-again", base, False)]
+        for lab, c_, scr in seq:
+            ref = run_impl(S, c_)
+            got = run_impl(S, c_, cache=cache, scribble=scr)
+            stress_n += 1
+            if not _same(ref, got):
+                stress_fail += 1
+                ctx.fail("correspondence", "%s:%s%d-cached-%s" % (ctx.prop, label, k, lab),
+                         "with a GreensFunctionCache attached, step '%s' of the sequence store / hit after the caller edited the returned arrays in place / one-argument sibling / hit returned arrays (or a grid) that differ from the same solve without a cache; case %r" % (lab, describe(c_)),
+                         hint={"case": full(base), "stress": {"kind": "cached-sequence", "step": lab, "sibling": full(sibc)}})
+                break
+    ctx.cov["stress"] = {"siblings": len(sib_of), "cached_sequence_steps": stress_n, "cached_sequence_failures": stress_fail,
+                         "rule": "siblings = one-argument variations executed right after their parent in one process and compared with the model; cached sequences = store / hit after in-place edit by the caller / sibling / hit, each compared bit for bit with the uncached call"}
     impl_out = []
     for k, case in enumerate(cases):
-        r = run_impl(S, case)
+        r = impl_by[k]
         impl_out.append(r)
         if r["err"] == 0:
             terms.append(("%s%d" % (label, k), "compare %s %s" % (args_term(case), exp_term(r))))
@@ -330,9 +547,9 @@ def correspond(ctx, cases, label, shard=6, jobs=14, timeout=900):
                 ctx.fail("correspondence", "%s:%s" % (ctx.prop, key),
                          "model and implementation differ: model outcome %s, rel dev conc %.3g flx %.3g (tol %.1g), structure/coords equal: %s, mesh ok: %s; case %r"
                          % (ERR.get(code, "result"), relc, relf, tol, struct, r["mesh_ok"], describe(case)),
-                         hint={"case": full(case), "dev": [relc, relf]})
+                         hint={"case": full(case), "dev": [relc, relf], **({"stress": {"kind": "sibling", "varied": case["_sibling"], "parent": full(cases[[p for p, q in sib_of.items() if q == k][0]])}} if "_sibling" in case else {})})
         out.append(rec)
-    return out
+    return out[:n_given]
 
 
 def summarize(ctx, cases, recs, rule, nontrivial=None):
